@@ -28,7 +28,7 @@ MANIFEST = dict(
          "constants, fixed keys, composition order and de-dup kind of both facades regenerated from the source; the hand-transcribed "
          "comprehensions by differential correspondence against the REAL GeckoAsyncFacade and GeckoFacade built on stub spas (assignment "
          "written into the block through the real accessors)."
-         ' Since session 3: rescans_are_idempotent (the facade OBJECT scanned any number of times holds the inventory of one scan; whether each list is rebuilt or grown is generated from both scan methods), checked by re-connecting the real blocking facade.',
+         ' Since session 3: rescans_are_idempotent (the facade OBJECT scanned any number of times holds the inventory of one scan; whether each list is rebuilt or grown is generated from both scan methods), checked by re-connecting the real blocking facade. A new output wiring reported on a live connection after a facade has read the outputs; the oracle decodes labels from the raw block.',
     note="Trusted: Lean kernel; harness/gen_c12.py (AST evaluation of const.py, syntactic facts); the correspondence harness. 'Wired to an "
          "output' is the label-prefix relation the library itself uses (no other definition exists in the repository). str.upper() is modelled "
          "as ASCII upper: every upper-cased key of the shipped tables is ASCII (checked by the kernel).",
@@ -218,7 +218,17 @@ def build_sync(spa):
 def oracle(ctx, f, spa, asg_s, which, full):
     """the property statement recomputed from the raw labels, checked on the real facade (no model involved)"""
     st = spa.struct
-    vals = [spa.accessors[o].value for o in dict.fromkeys(st.all_outputs)]
+    # the labels are decoded HERE from the raw bytes of the block and the published layout of each output item (not through the
+    # accessor's own value path, which is part of what is being checked)
+    blk = st.status_block
+
+    def raw_label(o):
+        a = spa.accessors[o]
+        raw = blk[a.pos] if a.length == 1 else (blk[a.pos] << 8) | blk[a.pos + 1]
+        if a.bitpos is not None:
+            raw = (raw >> a.bitpos) & a.bitmask
+        return a.items[raw] if raw < len(a.items) else "Unknown"
+    vals = [raw_label(o) for o in dict.fromkeys(st.all_outputs)]
     uds = list(st.user_demands)
     want = []
     for d in dict.fromkeys(st.all_devices):
@@ -557,6 +567,36 @@ def run(ctx):
                     if both:
                         lines.append(f"scan {c['file']} {lg} {bid}")      # one model answer serves both facades
                         checks.append(both)
+                # ---- the spa REPORTS a changed output wiring on a live connection (partial updates, 2-byte words), after a facade has
+                #      already looked at the outputs; a NEW facade on the same structure must show the new wiring
+                enc = []
+                for asg in mine[:40]:
+                    try:
+                        enc.append((asg, encode_assignment(spa, asg)[0]))
+                    except Exception:  # noqa
+                        pass
+                for (asg_a, blk_a), (asg_b, blk_b) in list(zip(enc, enc[1:]))[: (3 if ctx.quick else 25)]:
+                    if blk_a == blk_b:
+                        continue
+                    a_s = asg_str(asg_b) + "+rewired-from:" + asg_str(asg_a)
+                    try:
+                        spa.struct.set_status_block(blk_a)
+                        build_async(spa)                       # somebody has read the outputs under wiring A
+                        for pos in sorted({q & ~1 for q in range(1024) if blk_a[q] != blk_b[q]}):
+                            spa.struct.replace_status_block_segment(pos, blk_b[pos:pos + 2])
+                    except Exception as e:  # noqa
+                        viol(ctx, f"rewire-raises:{lg}:{type(e).__name__}", {"kind": "rewire", "cfg": c["file"], "log": lg, "assignment": a_s}, "the update is applied", f"{type(e).__name__}: {e}")
+                        continue
+                    for which, builder in (("async", build_async), ("sync", build_sync)):
+                        try:
+                            f, mode, err = builder(spa)
+                        except Exception as e:  # noqa
+                            viol(ctx, f"scan-raises-{which}:{lg}:{type(e).__name__}", {"kind": "rewire", "cfg": c["file"], "log": lg, "assignment": a_s, "facade": which},
+                                 "the output scan completes", f"{type(e).__name__}: {e}")
+                            continue
+                        ctx.count("evaluations")
+                        ctx.hist("facades", f"{which}:rewired")
+                        oracle(ctx, f, spa, a_s, which, mode == "full")
     for (lg, et), (cf, a_s, err) in sorted(build_fail.items()):
         viol(ctx, f"facade-build:{lg}:{et}", {"kind": "build", "cfg": cf, "log": lg, "assignment": a_s},
              "GeckoAsyncFacade can be built on a shipped cfg/log pair", err)
@@ -649,6 +689,23 @@ def replay(inp):
             return False, "builds"
         except Exception as e:  # noqa
             return True, f"{type(e).__name__}: {e}"
+    if k == "scan" and "+rewired-from:" in inp["assignment"]:
+        _VCOUNT.clear()
+        spa = StubSpa(inp["cfg"], inp["log"])
+        b_s, a_s = inp["assignment"].split("+rewired-from:")
+        try:
+            blk_a, _ = encode_assignment(spa, _parse_asg(a_s))
+            blk_b, _ = encode_assignment(spa, _parse_asg(b_s))
+            spa.struct.set_status_block(blk_a)
+            build_async(spa)
+            for pos in sorted({q & ~1 for q in range(1024) if blk_a[q] != blk_b[q]}):
+                spa.struct.replace_status_block_segment(pos, blk_b[pos:pos + 2])
+            f, mode, err = (build_async if inp["facade"] == "async" else build_sync)(spa)
+        except Exception as e:  # noqa
+            return True, f"{type(e).__name__}: {e}"
+        c = _Collect()
+        oracle(c, f, spa, inp["assignment"], inp["facade"], mode == "full")
+        return bool(c.v), c.v[:3] or "inventory equals the rewired outputs"
     if k == "scan":
         _VCOUNT.clear()
         spa = StubSpa(inp["cfg"], inp["log"])
